@@ -62,6 +62,11 @@ def gen(rng, tier):
         fr = gen_dm.make_frame(rng)
         nrows = len(fr["columns"][0]["values"])
         f = _formula(rng)
+        # orthogonal polynomials of degree d need d + 1 distinct abscissae (0/0 otherwise: C14's business)
+        for var, deg in re.findall(r"poly\((\w+), (\d)\)", f):
+            vals = next(col["values"] for col in fr["columns"] if col["name"] == var)
+            if len(set(vals)) < int(deg) + 2:
+                f = f.replace(f"poly({var}, {deg})", var)
         extra = {}
         if "lv" in f:
             lv = gen_dm.frame_levels(fr, "f")
